@@ -237,7 +237,8 @@ theorem zombieTimer_dq (cfg : Cfg) (st : St) (tid : Tid) : DQ cfg st (zombieTime
 
 /-- the state whose queue and counters `_check_send_batch` looks at in this step -/
 def atCheck (st : St) : Ev → St
-  | .send sid topic key msgs => if sid = st.nextSid ∧ msgs.isEmpty = false then enqueue st sid topic key msgs else st
+  | .send sid topic key msgs =>
+    if sid = st.nextSid ∧ msgs.isEmpty = false ∧ st.stopping = false then enqueue st sid topic key msgs else st
   | _ => st
 
 /-- events other than cancel / stop -/
@@ -258,18 +259,23 @@ theorem step_dq (cfg : Cfg) (st : St) (e : Ev) (he : notCTS e) :
   cases e with
   | send sid topic key msgs =>
     by_cases hs : sid = st.nextSid
-    · by_cases hm : msgs.isEmpty = true
-      · have h1 : atCheck st (.send sid topic key msgs) = st := by simp [atCheck, hm]
+    · by_cases hm : (msgs.isEmpty || st.stopping) = true
+      · have h1 : atCheck st (.send sid topic key msgs) = st := by
+          simp only [atCheck]
+          rw [if_neg]
+          intro hc; rw [hc.2.1, hc.2.2] at hm; cases hm
         have h2 : (step cfg st (.send sid topic key msgs)).1 = { st with nextSid := st.nextSid + 1 } := by
-          simp [step, hs, hm]
+          simp only [step, hs, ne_eq, not_true_eq_false, if_false, hm, if_true]
         rw [h1, h2]; exact ⟨rfl, Or.inl ⟨rfl, rfl, rfl⟩⟩
-      · have hm' : msgs.isEmpty = false := by simpa using hm
+      · have hm' : msgs.isEmpty = false ∧ st.stopping = false := by
+          cases h1 : msgs.isEmpty <;> cases h2 : st.stopping <;> simp [h1, h2] at hm ⊢
         have h1 : atCheck st (.send sid topic key msgs) = enqueue st sid topic key msgs := by
-          simp [atCheck, hs, hm']
+          simp [atCheck, hs, hm'.1, hm'.2]
         have h2 : (step cfg st (.send sid topic key msgs)).1 = (checkSendBatch cfg (enqueue st sid topic key msgs)).1 := by
-          simp [step, hs, hm', doSend]
+          simp [step, hs, hm'.1, hm'.2, doSend]
         rw [h1, h2]; exact checkSendBatch_dq cfg _
-    · have h1 : atCheck st (.send sid topic key msgs) = st := by simp [atCheck, hs]
+    · have h1 : atCheck st (.send sid topic key msgs) = st := by
+        simp only [atCheck]; rw [if_neg]; intro hc; exact hs hc.1
       have h2 : step cfg st (.send sid topic key msgs) = (st, [.badOp]) := by simp [step, hs]
       rw [h1, h2]; exact DQ.rfl' cfg st
   | cancel sid => cases he
@@ -305,41 +311,99 @@ theorem step_dq (cfg : Cfg) (st : St) (e : Ev) (he : notCTS e) :
 
 /-! ### along the trace -/
 
-theorem trackOb_stopped (e : Ev) (r : Bool) (t : Track) (o : Ob) : (trackOb e r t o).stopped = t.stopped := by
-  cases o <;> rfl
-
-theorem foldl_stopped (e : Ev) (r : Bool) (obs : List Ob) (t : Track) : (obs.foldl (trackOb e r) t).stopped = t.stopped := by
-  induction obs generalizing t with
-  | nil => rfl
-  | cons o rest ih => rw [List.foldl_cons, ih, trackOb_stopped]
-
-theorem track_stopped (pre : Snap) (t : Track) (s : Step) : (track pre t s).stopped = (trackEv pre t s.ev).stopped := by
-  have := foldl_stopped s.ev (isRetryStep t s.ev) s.obs (trackEv pre t s.ev)
-  simp only [track]
-  repeat' split
-  all_goals exact this
+/-- the queue is taken only when no batch is in flight, or by the step that takes the answer the batch in flight
+    was waiting for -/
+theorem taken_only_when_free (cfg : Cfg) (st : St) (e : Ev)
+    (hd : ∃ x ∈ queued (atCheck st e), x ∉ queued (step cfg st e).1)
+    (hc : ∀ sid, e ≠ .cancel sid) (hs : ∀ w p m, e ≠ .stop w p m) :
+    st.phase = .idle ∨
+    (∃ ls, st.phase = .lookups ls ∧ isLookupAnswer e = true) ∨
+    (∃ r b res, st.phase = .sending r b ∧ e = .produceDone r res ∧ validResult b res = true) := by
+  by_cases hidle : st.phase = .idle
+  · exact Or.inl hidle
+  right
+  obtain ⟨x, hx, hnx⟩ := hd
+  have same : (step cfg st e).1.queue = (atCheck st e).queue → False := by
+    intro hq; apply hnx; simp only [queued, hq]; exact hx
+  have hz : ∀ tid, (zombieTimer st tid).1.queue = st.queue := by
+    intro tid; simp only [zombieTimer]; split <;> rfl
+  cases e with
+  | send sid topic key msgs =>
+    exfalso; apply same
+    simp only [step, atCheck]
+    by_cases h1 : sid = st.nextSid
+    · by_cases h2 : (msgs.isEmpty || st.stopping) = true
+      · have h3 : ¬ (sid = st.nextSid ∧ msgs.isEmpty = false ∧ st.stopping = false) := by
+          intro hc; rw [hc.2.1, hc.2.2] at h2; cases h2
+        rw [if_neg (by simpa using h1), if_pos h2, if_neg h3]
+      · have h2' : msgs.isEmpty = false ∧ st.stopping = false := by
+          cases h3 : msgs.isEmpty <;> cases h4 : st.stopping <;> simp [h3, h4] at h2 ⊢
+        rw [if_neg (by simpa using h1), if_neg h2, if_pos ⟨h1, h2'⟩]
+        simp only [doSend]
+        rw [checkSendBatch_busy cfg _ (by simpa [enqueue] using hidle)]
+    · rw [if_pos (by simpa using h1), if_neg (fun hc => h1 hc.1)]
+  | cancel sid => exact absurd rfl (hc sid)
+  | tick =>
+    exfalso; apply same
+    simp only [step, atCheck]; split
+    · rw [sendBatch_busy cfg st hidle]
+    · rfl
+  | timer tid =>
+    cases hp : st.phase with
+    | idle => exact absurd hp hidle
+    | lookups ls => exact Or.inl ⟨ls, rfl, rfl⟩
+    | sending r b => exfalso; apply same; simp only [step, hp, atCheck]; exact hz tid
+    | retryWait t b tps =>
+      exfalso; apply same; simp only [step, hp, atCheck]
+      split
+      · rfl
+      · exact hz tid
+  | advance dt => exact (same rfl).elim
+  | metaSet topic err parts => exact (same rfl).elim
+  | metaReset topics => exact (same rfl).elim
+  | metaWipe => exact (same rfl).elim
+  | metaDone r res =>
+    cases hp : st.phase with
+    | lookups ls => exact Or.inl ⟨ls, rfl, rfl⟩
+    | idle => exact absurd hp hidle
+    | sending r' b => exfalso; apply same; simp [step, hp, atCheck]
+    | retryWait t b tps => exfalso; apply same; simp [step, hp, atCheck]
+  | produceDone r res =>
+    cases hp : st.phase with
+    | sending r' b =>
+      by_cases hcv : (r' = r && validResult b res) = true
+      · simp only [Bool.and_eq_true, decide_eq_true_eq] at hcv
+        obtain ⟨h1, h2⟩ := hcv
+        subst h1
+        exact Or.inr ⟨r', b, res, rfl, rfl, h2⟩
+      · exfalso; apply same; simp only [step, hp, atCheck, hcv]; rfl
+    | idle => exact absurd hp hidle
+    | lookups ls => exfalso; apply same; simp [step, hp, atCheck]
+    | retryWait t b tps => exfalso; apply same; simp [step, hp, atCheck]
+  | stop w p m => exact absurd rfl (hs w p m)
 
 /-- the dispatch check, from facts in `Prop` form -/
 theorem dispatchStep_of (cfg : Cfg) (pre : Snap) (t : Track) (e : Ev) (obs : List Ob) (post : Snap)
-    (h1 : (trackEv pre t e).stopped = true ∨ post.idle = false ∨ post.queue = [] ∨
-      thresh cfg post.msgCount post.byteCount = false)
-    (h2 : dispatched t.nextSid pre ⟨e, obs, post⟩ = true → e = .tick ∨
-      thresh cfg (msgCountOf (trackEv pre t e) (queueAtCheck t.nextSid pre e))
-        (byteCountOf (trackEv pre t e) (queueAtCheck t.nextSid pre e)) = true)
-    (h3 : e = .tick → pre.idle = true → pre.queue ≠ [] → (trackEv pre t e).stopped = false → pre.looper = true →
-      dispatched t.nextSid pre ⟨e, obs, post⟩ = true)
-    (h4 : dispatched t.nextSid pre ⟨e, obs, post⟩ = true → (trackEv pre t e).stopped = false) :
+    (h1 : post.idle = false ∨ post.queue = [] ∨ thresh cfg post.msgCount post.byteCount = false)
+    (h2 : dispatched t.nextSid t.stopped pre ⟨e, obs, post⟩ = true → e = .tick ∨
+      thresh cfg (msgCountOf (trackEv pre t e) (queueAtCheck t.nextSid t.stopped pre e))
+        (byteCountOf (trackEv pre t e) (queueAtCheck t.nextSid t.stopped pre e)) = true)
+    (h3 : e = .tick → pre.idle = true → pre.queue ≠ [] → pre.looper = true →
+      dispatched t.nextSid t.stopped pre ⟨e, obs, post⟩ = true)
+    (h4 : dispatched t.nextSid t.stopped pre ⟨e, obs, post⟩ = true → (trackEv pre t e).stopped = false)
+    (h5 : dispatched t.nextSid t.stopped pre ⟨e, obs, post⟩ = true →
+      pre.idle = true ∨ (t.curRes.isNone = true ∧ (trackEv pre t e).curRes.isSome = true) ∨
+      (isLookupAnswer e = true ∧ ((trackEv pre t e).cur.isNone = true ∨ (trackEv pre t e).curRes.isSome = true))) :
     dispatchStep cfg pre t ⟨e, obs, post⟩ = true := by
   unfold dispatchStep
   dsimp only
   simp only [Bool.and_eq_true]
-  refine ⟨⟨⟨?_, ?_⟩, ?_⟩, ?_⟩
-  · rcases h1 with h | h | h | h
+  refine ⟨⟨⟨⟨?_, ?_⟩, ?_⟩, ?_⟩, ?_⟩
+  · rcases h1 with h | h | h
     · simp [h]
     · simp [h]
     · simp [h]
-    · simp [h]
-  · cases hd : dispatched t.nextSid pre ⟨e, obs, post⟩ with
+  · cases hd : dispatched t.nextSid t.stopped pre ⟨e, obs, post⟩ with
     | false => rfl
     | true =>
       rcases h2 hd with h | h
@@ -354,18 +418,23 @@ theorem dispatchStep_of (cfg : Cfg) (pre : Snap) (t : Track) (e : Ev) (obs : Lis
         cases hq : pre.queue.isEmpty with
         | true => rfl
         | false =>
-          cases hs : (trackEv pre t .tick).stopped with
-          | true => rfl
-          | false =>
-            cases hl : pre.looper with
-            | false => rfl
-            | true =>
-              have hq' : pre.queue ≠ [] := by intro hc; rw [hc] at hq; cases hq
-              simp [h3 rfl hi hq' hs hl]
+          cases hl : pre.looper with
+          | false => rfl
+          | true =>
+            have hq' : pre.queue ≠ [] := by intro hc; rw [hc] at hq; cases hq
+            simp [h3 rfl hi hq' hl]
     | _ => rfl
-  · cases hd : dispatched t.nextSid pre ⟨e, obs, post⟩ with
+  · cases hd : dispatched t.nextSid t.stopped pre ⟨e, obs, post⟩ with
     | false => rfl
     | true => simp [h4 hd]
+  · cases hd : dispatched t.nextSid t.stopped pre ⟨e, obs, post⟩ with
+    | false => rfl
+    | true =>
+      rcases h5 hd with h | ⟨h, h'⟩ | ⟨h, h' | h'⟩
+      · simp [h]
+      · simp [h, h']
+      · simp [h, h']
+      · simp [h, h']
 
 structure DInv (cfg : Cfg) (st : St) (t : Track) : Prop where
   si : SInv cfg st t
@@ -390,16 +459,48 @@ theorem dinv_step (cfg : Cfg) (st : St) (t : Track) (e : Ev) (h : DInv cfg st t)
   have hti := h.si.ci.ti
   have hns : t.nextSid = st.nextSid := hti.si.ns
   have hrel' := hsi'.ci.ti.fr.rel
+  have hrel := hti.fr.rel
+  -- cancel and stop never take the queue
+  have hcancel : ∀ sid, e = .cancel sid →
+      dispatched t.nextSid t.stopped (snapOf st) (⟨e, (step cfg st e).2, snapOf (step cfg st e).1⟩ : Step) = false := by
+    intro sid he; subst he
+    simp only [dispatched]
+    apply any_not_mem_of_subset
+    intro x hx
+    obtain ⟨hx1, hx2⟩ := List.mem_filter.mp hx
+    have hne : x ≠ sid := by simpa using hx2
+    show x ∈ queued (step cfg st (.cancel sid)).1
+    simp only [step]; split
+    · simp only [cancelSend]
+      split
+      · split
+        · simp only [queued, snapOf, List.mem_map, List.mem_filter] at hx1 ⊢
+          obtain ⟨r, hr, hre⟩ := hx1
+          exact ⟨r, ⟨hr, by simpa [hre] using hne⟩, hre⟩
+        · exact hx1
+      · exact hx1
+    · exact hx1
+  have hstopd : ∀ w p m, e = .stop w p m →
+      dispatched t.nextSid t.stopped (snapOf st) (⟨e, (step cfg st e).2, snapOf (step cfg st e).1⟩ : Step) = false := by
+    intro w p m he; subst he; simp [dispatched]
+  -- once stopping, nothing is queued
+  have hqempty : ∀ s' : St, (∀ x ∈ queued s', x ∈ s'.outstanding) → s'.outstanding = [] → s'.queue = [] := by
+    intro s' hqo ho
+    cases hqq : s'.queue with
+    | nil => rfl
+    | cons r rest =>
+      have := hqo r.sid (by simp [queued, hqq])
+      rw [ho] at this; cases this
   have hst0 : (trackEv (snapOf st) t e).stopped = (step cfg st e).1.stopping := by
     rw [← hrel'.stopped]; exact (track_stopped (snapOf st) t (⟨e, (step cfg st e).2, snapOf (step cfg st e).1⟩ : Step)).symm
   have hsends0 := sends_step cfg st t (snapOf st) e hti.si
   -- the queue at the check, as the summary computes it
   have hq_at : ∀ (he : notCS e),
-      queueAtCheck t.nextSid (snapOf st) e = queued (atCheck st e) := by
+      queueAtCheck t.nextSid t.stopped (snapOf st) e = queued (atCheck st e) := by
     intro he
     cases e with
     | send sid topic key msgs =>
-      simp only [queueAtCheck, atCheck, hns]
+      simp only [queueAtCheck, atCheck, hns, hrel.stopped]
       split
       · simp [queued, enqueue, snapOf]
       · rfl
@@ -408,12 +509,12 @@ theorem dinv_step (cfg : Cfg) (st : St) (t : Track) (e : Ev) (h : DInv cfg st t)
     | _ => rfl
   -- … and as `dispatched` does
   have hd_at : ∀ (he : notCS e),
-      dispatched t.nextSid (snapOf st) (⟨e, (step cfg st e).2, snapOf (step cfg st e).1⟩ : Step) =
+      dispatched t.nextSid t.stopped (snapOf st) (⟨e, (step cfg st e).2, snapOf (step cfg st e).1⟩ : Step) =
         (queued (atCheck st e)).any (fun x => decide (x ∉ queued (step cfg st e).1)) := by
     intro he
     cases e with
     | send sid topic key msgs =>
-      simp only [dispatched, atCheck, hns]
+      simp only [dispatched, atCheck, hns, hrel.stopped]
       split
       · simp [queued, enqueue, snapOf]
       · rfl
@@ -422,7 +523,7 @@ theorem dinv_step (cfg : Cfg) (st : St) (t : Track) (e : Ev) (h : DInv cfg st t)
     | _ => rfl
   -- a step that is not cancel/tick/stop took the queue only over a threshold, and not stopping
   have hmain : ∀ (he : notCTS e),
-      dispatched t.nextSid (snapOf st) (⟨e, (step cfg st e).2, snapOf (step cfg st e).1⟩ : Step) = true →
+      dispatched t.nextSid t.stopped (snapOf st) (⟨e, (step cfg st e).2, snapOf (step cfg st e).1⟩ : Step) = true →
       thresh cfg (atCheck st e).msgCount (atCheck st e).byteCount = true ∧ (step cfg st e).1.stopping = false := by
     intro he hd
     have he' : notCS e := by cases e <;> first | trivial | cases he
@@ -449,7 +550,7 @@ theorem dinv_step (cfg : Cfg) (st : St) (t : Track) (e : Ev) (h : DInv cfg st t)
         split at hr
         · rename_i hc
           simp only
-          rw [if_pos (by rw [hns]; exact hc.1), hc.2]
+          rw [if_pos (by rw [hns]; exact hc.1), hc.2.1]
           simp only [Bool.false_eq_true, if_false]
           simp only [enqueue, List.mem_append, List.mem_singleton] at hr ⊢
           rcases hr with hr | hr
@@ -476,16 +577,16 @@ theorem dinv_step (cfg : Cfg) (st : St) (t : Track) (e : Ev) (h : DInv cfg st t)
       by rw [show queued (atCheck st e) = (atCheck st e).queue.map (·.sid) from rfl, c2, hacc.2]⟩
   apply dispatchStep_of cfg (snapOf st) t e (step cfg st e).2 (snapOf (step cfg st e).1)
   · -- (i)
-    rw [hst0]
     rcases hi1' with h1 | h1 | h1 | h1
-    · exact Or.inl h1
     · right; left
+      simp [snapOf, hqempty _ hsi'.ci.qo (hsi'.empty h1)]
+    · left
       simp only [snapOf]
       cases hp : (step cfg st e).1.phase with
       | idle => exact absurd hp h1
       | _ => rfl
-    · right; right; left; simp [snapOf, h1]
-    · right; right; right
+    · right; left; simp [snapOf, h1]
+    · right; right
       rw [thresholdMet_eq] at h1; exact h1
   · -- (ii)
     intro hd
@@ -493,7 +594,7 @@ theorem dinv_step (cfg : Cfg) (st : St) (t : Track) (e : Ev) (h : DInv cfg st t)
     | tick => exact Or.inl rfl
     | cancel sid =>
       exfalso
-      have : dispatched t.nextSid (snapOf st) (⟨.cancel sid, (step cfg st (.cancel sid)).2, snapOf (step cfg st (.cancel sid)).1⟩ : Step) = false := by
+      have : dispatched t.nextSid t.stopped (snapOf st) (⟨.cancel sid, (step cfg st (.cancel sid)).2, snapOf (step cfg st (.cancel sid)).1⟩ : Step) = false := by
         simp only [dispatched]
         apply any_not_mem_of_subset
         intro x hx
@@ -513,7 +614,7 @@ theorem dinv_step (cfg : Cfg) (st : St) (t : Track) (e : Ev) (h : DInv cfg st t)
       rw [this] at hd; cases hd
     | stop w p m =>
       exfalso
-      have : dispatched t.nextSid (snapOf st) (⟨.stop w p m, (step cfg st (.stop w p m)).2, snapOf (step cfg st (.stop w p m)).1⟩ : Step) = false := by simp [dispatched]
+      have : dispatched t.nextSid t.stopped (snapOf st) (⟨.stop w p m, (step cfg st (.stop w p m)).2, snapOf (step cfg st (.stop w p m)).1⟩ : Step) = false := by simp [dispatched]
       rw [this] at hd; cases hd
     | send sid topic key msgs =>
       right
@@ -556,9 +657,8 @@ theorem dinv_step (cfg : Cfg) (st : St) (t : Track) (e : Ev) (h : DInv cfg st t)
       obtain ⟨c1, c2⟩ := hcount trivial
       rw [hq_at trivial, c1, c2]; exact hth
   · -- (iii)
-    intro he hi hq hs hl
+    intro he hi hq hl
     subst he
-    rw [hst0] at hs
     have hi' : st.phase = .idle := by
       simp only [snapOf] at hi
       cases hp : st.phase with
@@ -568,7 +668,9 @@ theorem dinv_step (cfg : Cfg) (st : St) (t : Track) (e : Ev) (h : DInv cfg st t)
     have hl' : st.looper = true := hl
     have hstep : step cfg st .tick = sendBatch cfg st := by simp [step, hl']
     have hs' : st.stopping = false := by
-      rw [hstep, (sendBatch_stat cfg st).2.1] at hs; exact hs
+      cases hss : st.stopping with
+      | false => rfl
+      | true => exact absurd (hqempty st h.si.ci.qo (h.si.empty hss)) hq'
     have hcan : canDispatch st = true := by
       simp only [canDispatch, Bool.and_eq_true, Bool.not_eq_eq_eq_not, Bool.not_true, beq_iff_eq]
       refine ⟨⟨?_, hi'⟩, hs'⟩
@@ -607,7 +709,7 @@ theorem dinv_step (cfg : Cfg) (st : St) (t : Track) (e : Ev) (h : DInv cfg st t)
         rw [hsame] at hd; cases hd
     | cancel sid =>
       exfalso
-      have : dispatched t.nextSid (snapOf st) (⟨.cancel sid, (step cfg st (.cancel sid)).2, snapOf (step cfg st (.cancel sid)).1⟩ : Step) = false := by
+      have : dispatched t.nextSid t.stopped (snapOf st) (⟨.cancel sid, (step cfg st (.cancel sid)).2, snapOf (step cfg st (.cancel sid)).1⟩ : Step) = false := by
         simp only [dispatched]
         apply any_not_mem_of_subset
         intro x hx
@@ -627,7 +729,7 @@ theorem dinv_step (cfg : Cfg) (st : St) (t : Track) (e : Ev) (h : DInv cfg st t)
       rw [this] at hd; cases hd
     | stop w p m =>
       exfalso
-      have : dispatched t.nextSid (snapOf st) (⟨.stop w p m, (step cfg st (.stop w p m)).2, snapOf (step cfg st (.stop w p m)).1⟩ : Step) = false := by simp [dispatched]
+      have : dispatched t.nextSid t.stopped (snapOf st) (⟨.stop w p m, (step cfg st (.stop w p m)).2, snapOf (step cfg st (.stop w p m)).1⟩ : Step) = false := by simp [dispatched]
       rw [this] at hd; cases hd
     | send sid topic key msgs => exact (hmain trivial hd).2
     | timer tid => exact (hmain trivial hd).2
@@ -637,6 +739,26 @@ theorem dinv_step (cfg : Cfg) (st : St) (t : Track) (e : Ev) (h : DInv cfg st t)
     | metaWipe => exact (hmain trivial hd).2
     | metaDone a b => exact (hmain trivial hd).2
     | produceDone a b => exact (hmain trivial hd).2
+  · -- (v)
+    intro hd
+    have hnc : ∀ sid, e ≠ .cancel sid := by
+      intro sid he; rw [hcancel sid he] at hd; cases hd
+    have hnst : ∀ w p m, e ≠ .stop w p m := by
+      intro w p m he; rw [hstopd w p m he] at hd; cases hd
+    have he' : notCS e := by
+      cases e with
+      | cancel sid => exact absurd rfl (hnc sid)
+      | stop w p m => exact absurd rfl (hnst w p m)
+      | _ => trivial
+    rw [hd_at he', List.any_eq_true] at hd
+    obtain ⟨x, hx, hnx⟩ := hd
+    rcases taken_only_when_free cfg st e ⟨x, hx, by simpa using hnx⟩ hnc hnst with hp | ⟨ls, hp, ha⟩ | ⟨r, b, res, hp, he, hv⟩
+    · left; simp [snapOf, hp]
+    · right; right
+      exact ⟨ha, trackEv_quiet (snapOf st) t e (hrel.quiet (Or.inr ⟨ls, hp⟩))⟩
+    · right; left
+      subst he
+      exact trackEv_answered (snapOf st) hrel hp res hv
 
 theorem dinv_init (cfg : Cfg) : DInv cfg (St.init cfg) {} :=
   ⟨sinv_init cfg, Or.inr (Or.inr (Or.inl rfl))⟩
